@@ -190,6 +190,14 @@ def gen_driver(inv, T, tier):
     enums = {e["name"]: e for e in inv["enums"]}
     unit_enums = {n: e for n, e in enums.items() if n.startswith("PhQ::Unit::")}
     ct = {c["name"]: c for c in inv["class_templates"]}
+    # enumerations the library keeps tables for: the unit types, and whatever a variable template (Abbreviations,
+    # Spellings, ...) is explicitly specialised for.  Other enumerations (a helper's private notation enum, ...) are not
+    # handed to Abbreviation / ParseEnumeration: that would instantiate the empty primary tables for them.
+    table_enums = {n for n in enums if n.startswith("PhQ::Unit::")}
+    for vs in inv.get("var_specializations", []):
+        for a in vs.get("targs", [])[:1]:
+            if a in enums:
+                table_enums.add(a)
     w("namespace PhQ {")
     # (a) class templates
     inst_classes = []       # (written type with T, class template record)
@@ -249,7 +257,11 @@ def gen_driver(inv, T, tier):
             for p in tps:
                 combos = [dict(m, **{p["n"]: o}) for m in combos for o in NUMERIC]
             for m in combos:
-                ps = [re.sub(r"\b%s\b(?!\s*<)" % short_name, "%s<NumericType>" % short_name, p) for p in h["params"]]
+                # the class's own name as written inside the class: qualify it (a nested class template such as
+                # ConstitutiveModel::ElasticIsotropicSolid is not visible by its short name) and give the injected
+                # class name its argument
+                ps = [re.sub(r"(?<![:\w])%s\b(?!\s*<)" % short_name, "%s<NumericType>" % short_name, p) for p in h["params"]]
+                ps = [re.sub(r"(?<![:\w])%s\b" % short_name, "::" + c["name"], p) for p in ps]
                 args = ", ".join("mk<%s>()" % _subst(p, m) for p in ps)
                 k += 1
                 w("void drv_h%d() { (void)%s(%s); }" % (k, h["sname"], args))
@@ -332,7 +344,7 @@ def gen_driver(inv, T, tier):
                 args = ", ".join("mk<%s>()" % _subst(p, {"NumericType": T}) for p in f["params"])
                 w("void drv_f%d() { (void)%s<%s>(%s); }" % (k, qn, T, args))
             elif tnames == ["Enumeration"] and T == "double":
-                for en in sorted(enums):
+                for en in sorted(table_enums):
                     if en.startswith("PhQ::Dimension"):
                         continue
                     k += 1
@@ -348,7 +360,7 @@ def gen_driver(inv, T, tier):
             other = [t for t in tnames if t != "NumericType"][0]
             combos = [{"NumericType": T, other: o} for o in NUMERIC]
         elif tnames == ["Enumeration"]:
-            combos = [{"Enumeration": e} for e in sorted(enums) if not e.startswith("PhQ::Dimension")]
+            combos = [{"Enumeration": e} for e in sorted(table_enums) if not e.startswith("PhQ::Dimension")]
             if T != "double":
                 combos = []
         else:
